@@ -27,7 +27,7 @@ type HijackClientHelloConn struct {
 	buf bytes.Buffer
 
 	// expected length of the TLS client hello record
-	expectedLen uint16
+	expectedLen int
 
 	// verbose log func
 	VerboseLogFunc func(string, ...any)
@@ -100,7 +100,7 @@ func (c *HijackClientHelloConn) tryParseClientHello() error {
 	}
 
 	handshakeLen := uint16(bufBytes[3])<<8 | uint16(bufBytes[4])
-	c.expectedLen = recordHeaderLen + handshakeLen
+	c.expectedLen = recordHeaderLen + int(handshakeLen)
 
 	// call hasCompleteClientHello to truncate the buffer if possible
 	if c.hasCompleteClientHello() {
